@@ -1639,11 +1639,19 @@ namespace gch
             &&  std::is_integral<to>::value;
       };
 
+      // Pointer conversions which are guaranteed not to change the address (ie. qualification
+      // conversions and conversions to `void *`). Derived-to-base conversions may require a pointer
+      // adjustment, so those cannot be done with memcpy.
       template <typename From, typename To>
       struct is_convertible_pointer
         : bool_constant<std::is_pointer<From>::value
                     &&  std::is_pointer<To>::value
-                    &&  std::is_convertible<From, To>::value>
+                    &&  std::is_convertible<From, To>::value
+                    &&  (  std::is_void<typename std::remove_pointer<To>::type>::value
+                       ||  std::is_same<
+                             typename std::remove_cv<typename std::remove_pointer<From>::type>::type,
+                             typename std::remove_cv<typename std::remove_pointer<To>::type>::type
+                           >::value)>
       { };
 
       // Memcpyable assignment.
